@@ -9,7 +9,7 @@ func c11Specs(tier string) []*Spec {
 	writes := Alpha{Writes: true, Save: true}
 	add := func(name string, cfg Cfg, keys [][]byte, depth int, a Alpha, maint int) {
 		pr := probesFor(keys)
-		specs = append(specs, &Spec{Weight: depth, ID: "C11", Name: name, Cfg: cfg, Keys: keys, Vals: bs("x"), MaxDepth: depth, MaxMaint: maint,
+		specs = append(specs, &Spec{ID: "C11", Name: name, Cfg: cfg, Keys: keys, Vals: bs("x"), MaxDepth: depth, MaxMaint: maint,
 			Alphabet: a.Ops, Oracles: []Oracle{oracleBalance(pr, true), oracleReads(pr)}})
 	}
 	cold := Cfg{Fast: false, Cache: 0}
@@ -28,18 +28,14 @@ func c11Specs(tier string) []*Spec {
 }
 
 func c12Alpha() Alpha {
-	return Alpha{Writes: true, Save: true, Rollback: true, Reopen: stdReopen, DelTo: true, LVFO: true, DelFrom: true, Import: true}
+	return Alpha{Writes: true, Save: true, Rollback: true, Reopen: stdReopen, DelTo: true, LVFO: true, DelFrom: true, Import: true, ReadAll: true}
 }
 
 func c12Specs(tier string) []*Spec {
 	var specs []*Spec
 	add := func(name string, cfg Cfg, keys [][]byte, depth, maint int) {
-		wt := 1
-		if depth >= 7 {
-			wt = 8
-		}
 		a := c12Alpha()
-		specs = append(specs, &Spec{Weight: wt, ID: "C12", Name: name, Cfg: cfg, Keys: keys, Vals: bs("x"), MaxDepth: depth, MaxMaint: maint,
+		specs = append(specs, &Spec{ID: "C12", Name: name, Cfg: cfg, Keys: keys, Vals: bs("x"), MaxDepth: depth, MaxMaint: maint,
 			Alphabet: a.Ops, Oracles: []Oracle{oracleReach()}})
 	}
 	k3 := bs("a", "ab", "b")
